@@ -71,14 +71,14 @@ Section MarlinBatchComplete.
       constructor; [|exact Hres]. apply check_iff_residual. exact Ek.
   Qed.
 
-  Theorem marlin_batch_complete items cs qs ev chal vtape pfs rest :
+  Theorem marlin_batch_m_complete items cs qs evm chal vtape pfs rest :
     mmaps_agree (poly_state_map items) (comm_map cs) ->
-    (forall pl pt labels, In (pl, (pt, labels)) (group_queries qs) -> mevals_true (poly_state_map items) (evals_map ev) pt labels) ->
+    (forall pl pt labels, In (pl, (pt, labels)) (group_queries qs) -> mevals_true (poly_state_map items) evm pt labels) ->
     (length (group_queries qs) <= length vtape)%nat ->
     mbatch_open ck items qs chal = Ok (pfs, rest) ->
-    mbatch_check vk cs qs ev pfs chal vtape = Ok (true, rest, length (group_queries qs)).
+    mbatch_check_m vk cs qs evm pfs chal vtape = Ok (true, rest, length (group_queries qs)).
   Proof.
-    intros Hm He Lt H. unfold mbatch_open in H. unfold mbatch_check.
+    intros Hm He Lt H. unfold mbatch_open in H. unfold mbatch_check_m.
     destruct (groups_complete _ _ _ Hm (group_queries qs) chal pfs rest He H) as (ccs & zs & vs & Ecg & L1 & L2 & L3 & Hres).
     rewrite Ecg. cbn [bind]. rewrite L3, <- L1, Nat.eqb_refl. cbn [negb].
     assert (Lg : length ccs = length (group_queries qs)).
@@ -91,4 +91,11 @@ Section MarlinBatchComplete.
     rewrite (batch_all_true_accepts (mvk_vk vk) ccs zs vs pfs vtape L1 L2 L3 ltac:(lia) Hres). cbn [bind fst snd].
     rewrite Lg. reflexivity.
   Qed.
+  Theorem marlin_batch_complete items cs qs ev chal vtape pfs rest :
+    mmaps_agree (poly_state_map items) (comm_map cs) ->
+    (forall pl pt labels, In (pl, (pt, labels)) (group_queries qs) -> mevals_true (poly_state_map items) (evals_map ev) pt labels) ->
+    (length (group_queries qs) <= length vtape)%nat ->
+    mbatch_open ck items qs chal = Ok (pfs, rest) ->
+    mbatch_check vk cs qs ev pfs chal vtape = Ok (true, rest, length (group_queries qs)).
+  Proof. unfold mbatch_check. apply marlin_batch_m_complete. Qed.
 End MarlinBatchComplete.
